@@ -56,6 +56,17 @@ fn main() {
     let seed: u64 = std::env::var("VERIF_SEED").ok().and_then(|s| s.trim().parse::<i128>().ok()).map(|v| v as u64).unwrap_or(0);
     install_panic_hook();
 
+    if id == "gen-corpus" {
+        let dir = root.join("fuzz").join("corpus");
+        match hdv::fuzz::gen_corpus(&dir, 40) {
+            Ok(()) => println!("seed corpora written to {}", dir.display()),
+            Err(e) => {
+                println!("INCONCLUSIVE cannot write corpus: {e}");
+                std::process::exit(2);
+            }
+        }
+        return;
+    }
     if id == "list" {
         for p in hdv::props::ALL {
             println!("{p}");
